@@ -23,8 +23,44 @@ def families(tier, seed):
     return out
 
 
+def connectivity_fallback(chk):
+    """Bounded native companion of the Connectivity constructor contract: the real class on a grid of (delays, spread)."""
+    cache = {}
+
+    def run():
+        if "r" in cache:
+            return cache["r"]
+        import numpy as np
+        from pyvc import native
+        fails, n = [], 0
+        _, mod = native.real_function("pyrates/frontend/template/population.py::Connectivity")
+        for d in (None, 0.0, 0.25, 0.3, 1.0, 2):
+            for s_ in (None, 0.0, 0.1, 0.25, 0.3, 0.5, 1.0, 3.0):
+                n += 1
+                try:
+                    c_ = mod.Connectivity(source="a/op/r", target="b/op/u", weights=np.ones((2, 3)), delays=d, spread=s_)
+                    got = (c_.source, c_.target, c_.delays, c_.spread, np.asarray(c_.weights).shape)
+                except Exception as exn:
+                    got = f"{type(exn).__name__}: {exn}"
+                want = ("a/op/r", "b/op/u", d, s_, (2, 3))
+                if got != want:
+                    fails.append(dict(site="C16/Connectivity.__init__", clauses=["a Connectivity stores its source, target, delays and spread exactly as given"],
+                                      input=dict(delays=d, spread=s_), observed=str(got), expected=str(want), features=dict(delays=d, spread=s_)))
+        chk.add_bounded("native-connectivity-constructor", n, n, "Connectivity(...) on a grid of (delays, spread) incl. None, zero, spread == delays and "
+                        "spread > delays: the stored attributes equal the arguments; distinct = grid points", [dict(delays=0.25, spread=0.25)])
+        cache["r"] = fails
+        return fails
+    return run
+
+
 def main():
-    chk = Check("C16", "exploration")
+    chk = Check("C16", "other")
+    # deductive (small core): what a Connectivity carries into the compilation, and the kernel arithmetic applied to it (shared with C11)
+    fb = connectivity_fallback(chk)
+    chk.run_contracts("contracts.c16", fallback={"*": fb})
+    for f in fb():
+        chk.report_failure(f)
+    chk.run_contracts("contracts.c11", names=["NetworkGraph._add_matrix_delay@kernel-order"], fallback={"*": lambda: []})
     _cases = families(chk.tier, chk.seed)
     _results = driver.run_family(
         chk, "population-vs-explicit-network", _cases, cases.case_fn, site="C16/population",
